@@ -137,7 +137,7 @@ def run_harnesses(harnesses, timeout_s=600, jobs=8, extra_args=()):
     return res, dict(cmd=shown, wall=wall, solver_s=solver_s)
 
 
-def classify(result, prop):
+def classify(result, prop, allow=()):
     """-> (violations, undecided, ignored) lists of failed checks for property `prop`.
     A tagged harness assertion ("C06: ...") counts only for the properties named in its tag;
     untagged failures (overflow, bounds, unwrap panics, unsafe preconditions) count for the
@@ -145,7 +145,7 @@ def classify(result, prop):
     viol, und, ign = [], [], []
     for fc in result["failed_checks"]:
         d = fc["desc"]
-        if IGNORED_CHECKS.search(d):
+        if IGNORED_CHECKS.search(d) or any(re.search(a, d) for a in allow):
             ign.append(fc)
         elif UNDECIDED_CHECKS.search(d):
             und.append(fc)
@@ -213,5 +213,11 @@ fn main() {{
     open(inp, "w").write("\n".join(",".join(str(b) for b in v) for v in inputs) + "\n")
     rc, out, err, wall = run(["cargo", "run", "--quiet", "--", inp], cwd=REPLAY_DIR, timeout=timeout_s, env=_env())
     m = re.search(r"REPLAY-RESULT: (.*)", out)
-    verdict = m.group(1) if m else f"no verdict (rc={rc})"
+    if m:
+        verdict = m.group(1)
+    elif rc not in (0, 101):
+        why = [l for l in err.splitlines() if "unsafe precondition" in l or "panicked at" in l or "non-unwinding" in l]
+        verdict = f"reproduced abort (rc={rc}): " + " | ".join(why[-3:])[:400]
+    else:
+        verdict = f"no verdict (rc={rc})"
     return dict(verdict=verdict, rc=rc, stdout=out[-1500:], stderr=err[-3000:])
